@@ -1023,6 +1023,9 @@ pub enum IpOp {
     Iter,
     /// offer the node in role r again (same key, its current record, connected)
     Reoffer(u8),
+    /// seed: a table whose buckets admit one incoming peer each; bucket 100 holds a connected and
+    /// a disconnected incoming peer (other subnets) — role 7 is the disconnected one
+    SeedIncoming,
 }
 
 pub struct IpWorld {
@@ -1034,6 +1037,8 @@ pub struct IpWorld {
     /// live keys in insertion order with their subnet
     live: Vec<([u8; 32], u8)>,
     counters: BTreeMap<&'static str, u64>,
+    /// the disconnected incoming peer of `SeedIncoming`
+    incoming_q: Option<[u8; 32]>,
     rec_seq: u64,
 }
 
@@ -1061,7 +1066,7 @@ fn ip_record_build(keyno: u64, subnet: u8, seq: u64) -> Enr {
 impl IpWorld {
     fn new() -> Self {
         let table = KBucketsTable::new(key_of(LOCAL), Duration::from_secs(60), 16, Some(discv5::verif::ip_table_filter()), Some(discv5::verif::ip_bucket_filter()));
-        IpWorld { table, next_key: 0, next_bucket: 100, last_a_bucket: 100, live: vec![], counters: BTreeMap::new(), rec_seq: 1 }
+        IpWorld { table, next_key: 0, next_bucket: 100, last_a_bucket: 100, live: vec![], counters: BTreeMap::new(), rec_seq: 1, incoming_q: None }
     }
 
     fn fresh_in_bucket(&mut self, b: usize) -> (Key<NodeId>, u64) {
@@ -1110,6 +1115,7 @@ impl IpWorld {
             2 => self.table.buckets_iter().nth(255).and_then(|b| b.pending().map(|p| hash_of(p.verif_key()))).map(|h| (h, self.live.iter().find(|l| l.0 == h).map(|l| l.1).unwrap_or(0))),
             3 => self.table.buckets_iter().nth(255).and_then(|b| b.iter().next().map(|n| hash_of(&n.key))).map(|h| (h, 9)),
             // 5: second entry of bucket 255, 6: last entry of bucket 255
+            7 => self.incoming_q.map(|h| (h, 9)),
             5 => self.table.buckets_iter().nth(255).and_then(|b| b.iter().nth(1).map(|n| hash_of(&n.key))).map(|h| (h, 9)),
             6 => self.table.buckets_iter().nth(255).and_then(|b| if b.num_entries() > 2 { b.iter().last().map(|n| hash_of(&n.key)) } else { None }).map(|h| (h, 9)),
             _ => self.live.iter().find(|l| l.1 != 0 && l.1 < 4).copied(),
@@ -1130,6 +1136,20 @@ impl IpWorld {
                     let res = self.table.insert_or_update(&k, ip_record(no, 0, 1), status(1));
                     if matches!(res, InsertResult::Inserted) {
                         self.live.push((hash_of(&k), 0));
+                    }
+                    r.push(short_ir(&res));
+                }
+                obs = format!("{:?}", r);
+            }
+            IpOp::SeedIncoming => {
+                self.table = KBucketsTable::new(key_of(LOCAL), Duration::from_secs(60), 1, Some(discv5::verif::ip_table_filter()), Some(discv5::verif::ip_bucket_filter()));
+                self.last_a_bucket = 100;
+                let mut r = vec![];
+                for (subnet, st) in [(5u8, 3u8), (6, 2)] {
+                    let (k, no) = self.fresh_in_bucket(100);
+                    let res = self.table.insert_or_update(&k, ip_record(no, subnet, 1), status(st));
+                    if st == 2 {
+                        self.incoming_q = Some(hash_of(&k));
                     }
                     r.push(short_ir(&res));
                 }
@@ -1308,7 +1328,7 @@ impl IpWorld {
                 }
             }
         }
-        for r in [0u8, 2, 3] {
+        for r in [0u8, 2, 3, 7] {
             if self.role(r).is_some() {
                 ops.push(IpOp::Status(r, true));
                 ops.push(IpOp::Status(r, false));
@@ -1385,6 +1405,8 @@ pub fn run_c16() {
         vec![IpOp::SeedFull, IpOp::Seed(8, 5), IpOp::Insert(0, 1, 2)],
         // subnet dynamics inside one full bucket with a pending candidate, no A nodes elsewhere
         vec![IpOp::SeedFull, IpOp::Insert(0, 1, 2)],
+        // a bucket at its incoming limit: a refused status change must leave the /24 limit in force
+        vec![IpOp::SeedIncoming],
     ];
     let budget = mc::budget(thorough, 40.0, 1.0);
     let start = clock::wall();
